@@ -77,7 +77,7 @@ _TOYS = {}
 def make_toy(hl):
     if hl in _TOYS:
         return _TOYS[hl]
-    M = 256 ** hl
+    mask = 0xFFFFFFFF
 
     class Toy:
         digest_size = hl
@@ -85,17 +85,18 @@ def make_toy(hl):
         name = "toy%d" % hl
 
         def __init__(self, data=b""):
-            self._a = 7 % M
+            self._a = 7
             self.update(data)
 
         def update(self, data):
             a = self._a
             for b in data:
-                a = (a * 1000003 + b + 1) % M
+                a = (a * 65599 + b + 1) & mask
             self._a = a
 
         def digest(self):
-            return self._a.to_bytes(hl, "big")
+            a = self._a
+            return bytes((((a + j * 40503) * 2654435761) & mask) >> 24 for j in range(hl))
 
     _TOYS[hl] = Toy
     return Toy
@@ -228,7 +229,8 @@ def rec_transport_class():
     class RecTransport(paramiko.Transport):
         def _compute_key(self, id, nbytes):
             out = super()._compute_key(id, nbytes)
-            self.__dict__.setdefault("_c04_trace", []).append((id, nbytes, out))
+            self.__dict__.setdefault("_c04_trace", []).append(
+                (id, nbytes, out, self.K, self.H, self.session_id, getattr(self.kex_engine, "hash_algo", None)))
             return out
 
         def _get_engine(self, name, key, iv=None, operation=None, aead=False):
@@ -250,6 +252,7 @@ def activate(server, outbound, lc, rc, lm, rm, hashf, K, H, sid):
         t.local_cipher, t.remote_cipher, t.local_mac, t.remote_mac = lc, rc, lm, rm
         t.local_compression = t.remote_compression = "none"
         t.agreed_on_strict_kex = False
+        t._remote_ext_info = None      # state after _parse_kex_init (always runs before activation)
         t.K, t.H, t.session_id = K, H, sid
         t.kex_engine = KexStub(hashf)
         t._c04_trace = []
@@ -316,7 +319,7 @@ def check_activation(ctx, server, outbound, cname, mname, hname, K, H, sid, res)
     sizes = spec_sizes(cname, mname)
     vals = {}
     for p in ("iv", "key", "mac"):
-        ident, n, val = res[p]
+        ident, n, val = res[p][:3]
         ident = ident.decode() if isinstance(ident, bytes) else ident
         want_letter = rfc_letter(server, outbound, p)
         if ident != want_letter:
@@ -358,7 +361,8 @@ def handshake(kex, cipher, mac):
             so.ciphers = [cipher]
             so.digests = [mac]
         ts.add_server_key(_hostkey())
-        ts.start_server(server=paramiko.ServerInterface())
+        import threading
+        ts.start_server(event=threading.Event(), server=paramiko.ServerInterface())
         tc.start_client(timeout=20)
         # the server activates its inbound side on NEWKEYS receipt; wait for it
         import time
@@ -369,9 +373,13 @@ def handshake(kex, cipher, mac):
             time.sleep(0.005)
         out = {}
         for nm, t in (("client", tc), ("server", ts)):
-            out[nm] = {"K": t.K, "H": t.H, "sid": t.session_id, "trace": list(t.__dict__.get("_c04_trace", [])),
+            tr = list(t.__dict__.get("_c04_trace", []))
+            # K is wiped after NEWKEYS: use what _compute_key saw; the hash is the kex class's declared one
+            out[nm] = {"K": tr[0][3] if tr else None, "H": tr[0][4] if tr else None,
+                       "sid": tr[0][5] if tr else None, "trace": tr,
+                       "same_secret": len({(e[3], e[4], e[5]) for e in tr}) == 1,
                        "engines": list(t.__dict__.get("_c04_engines", [])),
-                       "hash": getattr(t.kex_engine, "hash_algo", None)}
+                       "hash": paramiko.Transport._kex_info[kex].hash_algo}
         return out
     finally:
         tc.close()
@@ -394,7 +402,8 @@ def check_handshake(ctx, kex, cipher, mac):
         ctx.notes.append("handshake %r did not complete (%s %r); skipped" % (case, st, obs))
         return False
     c, s = obs["client"], obs["server"]
-    if c["K"] != s["K"] or c["H"] != s["H"] or c["sid"] != s["sid"]:
+    if c["K"] is None or not c["same_secret"] or not s["same_secret"] or \
+            c["K"] != s["K"] or c["H"] != s["H"] or c["sid"] != s["sid"]:
         ctx.notes.append("handshake %r: K/H differ between the peers (not C04's subject)" % (case,))
         return False
     sizes = spec_sizes(cipher, mac)
@@ -455,6 +464,12 @@ def run(ctx):
                         "both peers negotiated the same cipher / MAC for a direction (C05) and hold the same K, H, "
                         "session id (C06/C08)"]
     ctx.prove()
+    import time as _time
+    _t0 = [_time.time()]
+
+    def lap(what):
+        ctx.log("%s: %.1fs" % (what, _time.time() - _t0[0]))
+        _t0[0] = _time.time()
 
     t = new_transport()
     names_c = list(paramiko.Transport._cipher_info)
@@ -474,11 +489,14 @@ def run(ctx):
                 X = rng.choice([0, 64, 71, 97, 127, 128, 255, rng.randrange(256)])
             letter = chr(X) if X < 128 else bytes([X])
             n = gen_n(rng, hl, malformed)
+            if n > 48 * hl and rng.random() < 0.9:      # keep most model runs below ~50 turns of the loop
+                n = rng.randrange(1, 48 * hl + 1)
             got = check_rfc(ctx, t, "toy%d" % hl, K, H, sid, letter, n)
             cases.append(((hl, K, list(H), list(sid), X, n), [0] + list(got)))
             ctx.count(("ck", hl, K, H, sid, X, n), nontrivial=n >= 1,
                       kind="compute_key-toy-malformed" if malformed else
                       ("compute_key-toy-multi-block" if n > hl else "compute_key-toy-one-block"))
+        lap("compute_key cases on the implementation")
         bad = ctx.model_mismatches("run_compute_key", "(Z * Z * list Z * list Z * Z * Z)",
                                    [(coq(c), e) for c, e in cases], shard=60)
         for i in bad[:3]:
@@ -489,6 +507,7 @@ def run(ctx):
                                     "sid": bytes(cases[0][0][3]), "X": cases[0][0][4], "n": cases[0][0][5],
                                     "impl": bytes(cases[0][1][1:])}})
 
+        lap("model run")
         # ---- 2. RFC oracle over the real kex hashes ----------------------------------------------
         for j in range(600 * scale):
             hname = rng.choice(HASHES)
@@ -517,6 +536,7 @@ def run(ctx):
     finally:
         t.sock.close()
 
+    lap("RFC oracle over hashlib")
     # ---- 3. activation: every cipher x MAC x role x direction ------------------------------------
     sel_obs = {}
     for outbound in (False, True):
@@ -576,7 +596,7 @@ def run(ctx):
                     if shared:
                         ctx.fail("directions-share-key", "a key is shared between the two directions",
                                  case=dict(case, server_mode=server), observed=sorted(shared)[0])
-    ctx.exhaustive = False
+    lap("activation on the implementation")
     bad = ctx.model_mismatches("run_requested", "(bool * bool * Z * Z)", [(coq(c), e) for c, e in cases])
     for i in bad[:3]:
         c = cases[i][0]
@@ -590,6 +610,7 @@ def run(ctx):
     ctx.notes.append("activation enumerated exhaustively: %d ciphers x %d MACs x 2 roles x 2 directions"
                      % (len(names_c), len(names_m)))
 
+    lap("model run")
     # ---- 4. real loopback handshakes ---------------------------------------------------------------
     kexes = ["curve25519-sha256@libssh.org", "ecdh-sha2-nistp256", "ecdh-sha2-nistp384", "ecdh-sha2-nistp521",
              "diffie-hellman-group14-sha1", "diffie-hellman-group14-sha256", "diffie-hellman-group16-sha512"]
@@ -610,6 +631,7 @@ def run(ctx):
         if check_handshake(ctx, kex, cname, mname):
             done += 1
             ctx.count(("hs", kex, cname, mname), kind="handshake-" + kex)
+    lap("handshakes")
     ctx.notes.append("real handshakes completed: %d of %d" % (done, len(plan)))
     if done < len(plan) // 2:
         ctx.disagree("fewer than half of the loopback handshakes completed", case={"done": done, "planned": len(plan)})
